@@ -144,7 +144,7 @@ theorem parameters_ne_fuel (P : Profile) (s : List Char) : parameters P s ≠ .f
     · simp
 
 
-theorem name_suffix (cc : CharClass) (r : List Char) : (name cc r).2 <:+ r := by
+theorem name_suffix (cc : CharClass) (P : Profile) (r : List Char) : (name cc P r).2 <:+ r := by
   unfold name
   split
   · exact List.suffix_refl _
@@ -180,10 +180,10 @@ def PR.ArgShape (res : PR (Option Piece)) (r : List Char) : Prop :=
   | .fuel => True
 
 theorem argumentWith_shape (cc : CharClass) (P : Profile) (argsF : List Char → PR (List (List Piece)))
-    (r : List Char) (hA : (argsF (name cc r).2).RestSuffix (name cc r).2) :
+    (r : List Char) (hA : (argsF (name cc P r).2).RestSuffix (name cc P r).2) :
     (argumentWith cc P argsF r).ArgShape r := by
   unfold argumentWith
-  have hn := name_suffix cc r
+  have hn := name_suffix cc P r
   split
   · rename_i args r2 hargs
     rw [hargs] at hA
@@ -193,7 +193,7 @@ theorem argumentWith_shape (cc : CharClass) (P : Profile) (argsF : List Char →
     · rename_i p r3 hpar
       rw [hpar] at hp
       simp only [PR.RestSuffix] at hp
-      obtain ⟨q, r4, hq, hs⟩ := closeBrace_spec (.arg (name cc r).1 args p) r3
+      obtain ⟨q, r4, hq, hs⟩ := closeBrace_spec (.arg (name cc P r).1 args p) r3
       rw [hq]
       exact List.IsSuffix.trans hs (List.IsSuffix.trans hp (List.IsSuffix.trans hA hn))
     · rename_i e r3 hpar
@@ -336,7 +336,7 @@ theorem next_shrinks (cc : CharClass) (P : Profile) (s : List Char) : (next cc P
 /-! ### fuel: `input.length + 1` is enough, and more fuel changes nothing -/
 
 theorem argumentWith_congr (cc : CharClass) (P : Profile) (F G : List Char → PR (List (List Piece)))
-    (r : List Char) (h : F (name cc r).2 = G (name cc r).2) :
+    (r : List Char) (h : F (name cc P r).2 = G (name cc P r).2) :
     argumentWith cc P F r = argumentWith cc P G r := by
   unfold argumentWith; rw [h]
 
@@ -349,17 +349,17 @@ theorem nextWith_congr (cc : CharClass) (P : Profile) (F G : List Char → PR (L
   · rfl
   · rename_i c r
     have : argumentWith cc P F r = argumentWith cc P G r :=
-      argumentWith_congr cc P F G r (h _ (suffix_length_lt_cons c (name_suffix cc r)))
+      argumentWith_congr cc P F G r (h _ (suffix_length_lt_cons c (name_suffix cc P r)))
     rw [this]
 
 theorem argumentWith_ne_fuel (cc : CharClass) (P : Profile) (F : List Char → PR (List (List Piece)))
-    (r : List Char) (h : F (name cc r).2 ≠ .fuel) : argumentWith cc P F r ≠ .fuel := by
+    (r : List Char) (h : F (name cc P r).2 ≠ .fuel) : argumentWith cc P F r ≠ .fuel := by
   unfold argumentWith
   split
   · rename_i args r2 _
     split
     · rename_i p r3 _
-      obtain ⟨q, r4, hq, _⟩ := closeBrace_spec (.arg (name cc r).1 args p) r3
+      obtain ⟨q, r4, hq, _⟩ := closeBrace_spec (.arg (name cc P r).1 args p) r3
       rw [hq]; simp
     · rename_i e r3 _
       obtain ⟨q, r4, hq, _⟩ := closeBrace_spec (.error e) r3
@@ -378,7 +378,7 @@ theorem nextWith_ne_fuel (cc : CharClass) (P : Profile) (F : List Char → PR (L
   split
   · simp
   · rename_i c r
-    have := argumentWith_ne_fuel cc P F r (h _ (suffix_length_lt_cons c (name_suffix cc r)))
+    have := argumentWith_ne_fuel cc P F r (h _ (suffix_length_lt_cons c (name_suffix cc P r)))
     split
     · split
       · simp
@@ -604,8 +604,8 @@ theorem parameters_ne_panic (P : Profile) (s : List Char) (h : IntSafe P s) (w :
     · simp
 
 theorem argumentWith_ne_panic (cc : CharClass) (P : Profile) (F : List Char → PR (List (List Piece)))
-    (r : List Char) (hs : IntSafe P r) (hA : (F (name cc r).2).RestSuffix (name cc r).2)
-    (hF : ∀ w, F (name cc r).2 ≠ .panic w) (w : String) : argumentWith cc P F r ≠ .panic w := by
+    (r : List Char) (hs : IntSafe P r) (hA : (F (name cc P r).2).RestSuffix (name cc P r).2)
+    (hF : ∀ w, F (name cc P r).2 ≠ .panic w) (w : String) : argumentWith cc P F r ≠ .panic w := by
   unfold argumentWith
   split
   · rename_i args r2 hargs
@@ -613,13 +613,13 @@ theorem argumentWith_ne_panic (cc : CharClass) (P : Profile) (F : List Char → 
     simp only [PR.RestSuffix] at hA
     split
     · rename_i p r3 _
-      obtain ⟨q, r4, hq, _⟩ := closeBrace_spec (.arg (name cc r).1 args p) r3
+      obtain ⟨q, r4, hq, _⟩ := closeBrace_spec (.arg (name cc P r).1 args p) r3
       rw [hq]; simp
     · rename_i e r3 _
       obtain ⟨q, r4, hq, _⟩ := closeBrace_spec (.error e) r3
       rw [hq]; simp
     · rename_i w' hpar
-      exact absurd hpar (parameters_ne_panic P r2 (hs.suffix (hA.trans (name_suffix cc r))) w')
+      exact absurd hpar (parameters_ne_panic P r2 (hs.suffix (hA.trans (name_suffix cc P r))) w')
     · simp
   · rename_i e r2 _
     obtain ⟨q, r4, hq, _⟩ := closeBrace_spec (.error e) r2
@@ -635,7 +635,7 @@ theorem nextWith_ne_panic (cc : CharClass) (P : Profile) (F : List Char → PR (
   · simp
   · rename_i c r
     have := argumentWith_ne_panic cc P F r (hs.suffix (List.suffix_cons c r)) (hA _)
-      (hF _ (suffix_of_cons (name_suffix cc r))) w
+      (hF _ (suffix_of_cons (name_suffix cc P r))) w
     split
     · split
       · simp
